@@ -111,15 +111,17 @@ theorem mem_of_superset_kindOf (v : Value) (K : Kind) (hs : v.Sorted = true)
   (Spec.isSupersetF_sound _).mem K v.kindOf v hK h (Spec.mem_kindOf v hs)
 
 /-- **Insertion is sound** for every path made of field segments and non-negative indices, every
-    value/kind pair and every inserted value/kind, outside the finding classes: no array kind on the
-    path has a known index that may be absent (`D_minlen_counts_optional`) and no kind met at a
-    segment is a union containing that segment's collection state (`D_insert_union_alt`); both classes
-    are witnessed. (`insertClass … = none` implies both hypotheses; negative indices are not covered by
-    this theorem: `D_neg_insert_exact_noshift` is a witnessed defect, the unknown-length branch goes
-    through `Collection::merge`.) -/
+    value/kind pair and every inserted value/kind, outside the finding classes: on the walk
+    `insert_recursive` makes, no array kind has a known index that may be absent
+    (`D_minlen_counts_optional`) and no kind is a union whose collection state for the segment has a
+    known entry that must be present (`D_insert_union_alt`); both classes are witnessed. In
+    particular every insertion of field/non-negative-index paths into `any`, `json`, unions without
+    required fields and exact object/array kinds is covered. (`insertClass … = none` implies both
+    hypotheses. Negative indices are not covered: `D_neg_insert_exact_noshift` is a witnessed defect,
+    the unknown-length branch goes through `Collection::merge`.) -/
 theorem insert_sound_partial (v : Value) (K : Kind) (p : Path) (x : Value) (X : Kind)
     (hs : v.Sorted = true) (hp : Spec.nonNegPath p = true)
-    (h1 : anyOnPath optionalIdx K p = false) (h2 : anyOnPath unionAlt K p = false) :
+    (h1 : anyOnInsertPath optionalIdx K p = false) (h2 : anyOnInsertPath unionAltReq K p = false) :
     insertLawM v K p x X = true := by
   unfold insertLawM Value.insert
   split
@@ -140,7 +142,7 @@ theorem insert_sound_partial (v : Value) (K : Kind) (p : Path) (x : Value) (X : 
           simpa [Kind.insert] using this
 
 theorem insertClass_none (K : Kind) (p : Path) (X : Kind) (h : insertClass K p X = .none) :
-    anyOnPath optionalIdx K p = false ∧ anyOnPath unionAlt K p = false := by
+    anyOnInsertPath optionalIdx K p = false ∧ anyOnInsertPath unionAltReq K p = false := by
   unfold insertClass at h
   split at h
   · cases h
